@@ -655,19 +655,75 @@ pub struct ExParseIntError(core::num::ParseIntError);
 // ------------------------------------------------------------------ core::fmt (only what the Display dispatcher touches)
 /// the precision of a format spec ({:.N}), as an uninterpreted attribute of the formatter
 pub uninterp spec fn fmt_precision(f: &core::fmt::Formatter<'_>) -> Option<usize>;
+/// ASSUMED besides: a requested precision stays below 2^60 (std limits it to 65535 since Rust 1.87)
+pub open spec fn fmt_precision_ok(p: Option<usize>) -> bool { p.is_some() ==> p.unwrap() <= 0x1000_0000_0000_0000 }
 pub assume_specification<'a> [core::fmt::Formatter::<'a>::precision] (f: &core::fmt::Formatter<'a>) -> (ret: Option<usize>)
-    ensures ret == fmt_precision(f);
+    ensures ret == fmt_precision(f), fmt_precision_ok(ret);
+/// characters of an ASCII byte string / bytes of an ASCII character string
+pub open spec fn b2c(s: Seq<u8>) -> Seq<char> { Seq::new(s.len(), |i: int| s[i] as char) }
+pub open spec fn c2b(s: Seq<char>) -> Seq<u8> { Seq::new(s.len(), |i: int| s[i] as u8) }
+pub open spec fn ascii_bytes(s: Seq<u8>) -> bool { forall|i: int| 0 <= i < s.len() ==> (#[trigger] s[i]) < 128 }
+pub proof fn lemma_b2c_c2b(s: Seq<u8>)
+    requires ascii_bytes(s)
+    ensures c2b(b2c(s)) =~= s
+{
+    assert forall|i: int| 0 <= i < s.len() implies #[trigger] c2b(b2c(s))[i] == s[i] by {
+        let b = s[i];
+        assert(b < 128);
+        assert((b as char) as u8 == b);
+    }
+}
 impl BigUint {
-    /// decimal digit string: ASCII, as many characters as the number has digits
+    /// decimal digit string: ASCII digits, as many characters as the number has digits, reading as the number;
+    /// ASSUMED besides: a string is shorter than 2^60 bytes
     #[verifier::external_body]
     pub fn to_str_radix(&self, radix: u32) -> (ret: String)
         requires radix == 10
-        ensures ret.is_ascii(), ret@.len() == ndigits(self@ as int), biguint_str(ret@) == self@
+        ensures ret.is_ascii(), ret@.len() == ndigits(self@ as int), ret@.len() <= 0x1000_0000_0000_0000,
+                ascii_digits(c2b(ret@)), dba(c2b(ret@)) == self@
     { unimplemented!() }
 }
-pub uninterp spec fn biguint_str(s: Seq<char>) -> nat;
 pub assume_specification [String::len] (s: &String) -> (ret: usize)
     ensures s.is_ascii() ==> ret == s@.len();
+#[verifier::external_type_specification]
+#[verifier::external_body]
+pub struct ExFromUtf8Error(std::string::FromUtf8Error);
+pub assume_specification [String::from_utf8] (v: Vec<u8>) -> (ret: Result<String, std::string::FromUtf8Error>)
+    ensures ascii_bytes(v@) ==> (ret matches Ok(s) && s@ == b2c(v@) && s.is_ascii());
+pub assume_specification [String::into_bytes] (s: String) -> (ret: Vec<u8>)
+    ensures s.is_ascii() ==> (ascii_bytes(ret@) && ret@ == c2b(s@) && b2c(ret@) == s@);
+pub assume_specification [String::insert] (s: &mut String, idx: usize, ch: char)
+    requires old(s).is_ascii(), idx <= old(s)@.len(), (ch as u32) < 128
+    ensures final(s).is_ascii(), final(s)@ == old(s)@.insert(idx as int, ch);
+/// R6 `S.extend(iter::repeat(C).take(N))`
+#[verifier::external_body]
+pub fn string_extend_repeat(s: &mut String, ch: char, n: usize)
+    requires old(s).is_ascii(), (ch as u32) < 128
+    ensures final(s).is_ascii(), final(s)@ == old(s)@ + Seq::new(n as nat, |i: int| ch)
+{ unimplemented!() }
+
+/// what Formatter::pad_integral returns (and writes) for a sign flag, a prefix and a numeral: NOT specified (std);
+/// the contracts pin the ARGUMENTS it is called with
+pub uninterp spec fn pad_integral_spec(f: core::fmt::Formatter<'_>, nonneg: bool, prefix: Seq<char>, buf: Seq<char>) -> core::fmt::Result;
+pub assume_specification<'a> [core::fmt::Formatter::<'a>::pad_integral] (f: &mut core::fmt::Formatter<'a>, is_nonnegative: bool, prefix: &str, buf: &str) -> (ret: core::fmt::Result)
+    ensures ret == pad_integral_spec(*old(f), is_nonnegative, prefix@, buf@);
+
+/// `write!(STRING, FMT, args..)`: appends the text std produces for the format string and the arguments, an
+/// UNINTERPRETED function of both (the `write!` shadow macro below maps the call onto these functions)
+pub enum FmtVal { Str(Seq<char>), Int(int) }
+pub trait FmtArg { spec fn fv(&self) -> FmtVal; }
+impl FmtArg for &str { open spec fn fv(&self) -> FmtVal { FmtVal::Str(self@) } }
+impl FmtArg for i128 { open spec fn fv(&self) -> FmtVal { FmtVal::Int(*self as int) } }
+impl FmtArg for i64 { open spec fn fv(&self) -> FmtVal { FmtVal::Int(*self as int) } }
+pub uninterp spec fn fmt_text(fmt: Seq<char>, args: Seq<FmtVal>) -> Seq<char>;
+#[verifier::external_body]
+pub fn string_write1<A: FmtArg + core::fmt::Display>(s: &mut String, fmt: &str, a: &A) -> (r: core::fmt::Result)
+    ensures r.is_ok(), final(s)@ == old(s)@ + fmt_text(fmt@, seq![a.fv()])
+{ unimplemented!() }
+#[verifier::external_body]
+pub fn string_write2<A: FmtArg + core::fmt::Display, B: FmtArg + core::fmt::Display>(s: &mut String, fmt: &str, a: &A, b: &B) -> (r: core::fmt::Result)
+    ensures r.is_ok(), final(s)@ == old(s)@ + fmt_text(fmt@, seq![a.fv(), b.fv()])
+{ unimplemented!() }
 pub assume_specification<T> [Option::<T>::or] (a: Option<T>, b: Option<T>) -> (ret: Option<T>)
     ensures ret == (if a.is_some() { a } else { b });
 
@@ -922,3 +978,11 @@ nonzero_shim!(NonZeroUsize, usize, nzusize, axiom_nzusize_pos);
 
 } // mod shim
 } // verus!
+
+// `write!` on a String with one or two arguments (the forms the formatting routines use), mapped onto the assumed
+// string_write functions; imported as `write` by the module prologue of impl_fmt so that it shadows std's macro
+#[macro_export]
+macro_rules! shim_write {
+    ($dst:expr, $fmt:literal, $a:expr) => { $crate::shim::string_write1(&mut $dst, $fmt, &$a) };
+    ($dst:expr, $fmt:literal, $a:expr, $b:expr) => { $crate::shim::string_write2(&mut $dst, $fmt, &$a, &$b) };
+}
